@@ -14,6 +14,24 @@ def c06_classify(c, i):
     out.append("buf=" + ("1" if buf == "1" else "2-7" if int(buf) < 8 else "8+"))
     if skip == "1": out.append("shouldSkip")
     if base != "0": out.append("resume-offset")
+    if mx != "0":
+        # does a line over the limit occur (the skip / cut branches), and does it straddle reads?
+        hexes, k = [], 7
+        try:
+            for _ in range(int(nturns)):
+                n = int(c[k]); k += 1
+                hexes += [t for t in c[k:k + n] if t != "-"]; k += n
+            content = bytes.fromhex("".join(hexes))
+        except (ValueError, IndexError):
+            content = b""
+        m = int(mx)
+        lines = content.split(b"\n")[:-1]
+        if any(len(l) + 1 > m for l in lines):
+            out.append("oversize-line")
+            if any(len(l) + 1 > m and len(l) + 1 > int(buf) for l in lines):
+                out.append("oversize-line-straddles-reads")
+        if any(len(l) + 1 == m for l in lines):
+            out.append("line-exactly-at-limit")
     if i and i[0].isdigit():
         n = int(i[0])
         out.append("calls=" + ("0" if n == 0 else "1-3" if n < 4 else "4+"))
@@ -23,18 +41,18 @@ def c06_classify(c, i):
 
 CFG = {
         "manifest": {
-            "text": "Proof: Lean theorems (Props/C06.lean) state that the model of worker.work emits exactly specLines(content) for every content and every split into reads/turns; the model is tied to the real worker by running both on exhaustive small contents and random contents on every run.",
+            "text": "Proof: Lean theorem worker_holds (Props/C06.lean) states that for every configuration (no limit / skip / cut), start mode, base offset, content and split of the content into turns and reads the In calls of the model of worker.work satisfy SpecC06.holds - the very oracle the check evaluates on the real worker's calls; worker_turns_lines / worker_tail / worker_resume / worker_first_line_skipped / worker_skip_oversize / worker_cut_oversize / worker_cut_then_admission spell it out per clause. The model is tied to the real worker by running both on exhaustive small contents in every limit mode and on random contents on every run.",
             "note": "Trusted: Lean kernel + the three standard axioms; fdmodel compilation; harness; os.File.Read chunking assumption. Not modelled: lz4, metadata, truncation (processEOF).",
             "technique": "Lean 4 proof (induction over reads, refinement to specLines) + differential correspondence on real temp files",
         },
         "props_modules": ["FileD.Props.C06"],
         "nontrivial": c06_nontrivial,
         "classify": c06_classify,
-        "rule": "exhaustive contents over {a,b,\\n} up to length 6 (quick) / 8 (thorough) x every buffer size x single append points x limit modes, then random contents (line lengths around the limits, 1-4 appends, resume offsets, buffers 1..4096); distinct = distinct case line; non-trivial = the real worker made at least one In call",
+        "rule": "exhaustive contents over {a,b,\\n} up to length 6 (quick) / 8 (thorough) x every buffer size x one turn and every single append point, each in 8 limit modes (off, skip 1/2, cut 1/2, shouldSkip with 0/3/3cut) up to length 5/7 and rotating through them beyond; every pair of append points up to length 4/6; a straddle stream (limits 1..9, buffers 1..limit+3, lines from under the limit to several buffers over it, 1-4 appends, resume offsets); random contents (line lengths around the limits 1/5/16/64, up to 600 bytes, buffers 1..4096); distinct = distinct case line; non-trivial = the real worker made at least one In call",
         "corr_name": "Worker.turns = (*worker).work (In calls, curOffset, tail, shouldSkip)",
         "trusted_base": [
             "os.File.Read on a regular file returns the next min(len(buf), remaining) bytes and (0, EOF) at end (the case's read chunks are derived from this)",
             "modelled, not verified: lz4 files, metadata rendering, truncation detection (processEOF)",
         ],
-        "assumptions": ["a turn starts on a line boundary (resume offsets come from committed end-of-line offsets)"],
+        "assumptions": ["the first turn starts on a line boundary or with shouldSkip set (resume offsets come from committed end-of-line offsets); later turns start wherever the previous one stopped", "in cut mode the worker hands over more than max bytes for an over-long line; the cut to max is Pipeline.checkInputBytes (C20); worker_cut_then_admission uses a 5-line model of that branch"],
 }
